@@ -28,7 +28,8 @@ PACKAGED = gen_iso.packaged_config()
 
 def roundtrip(config, codec, hexbm, msg, use_default_config=False):
     """None or (signature, message)"""
-    kw = dict(encoding=codec, hex_bitmap=hexbm)
+    # the encoding goes by any name Python knows it by (aliases, upper case): two thirds of the calls use another spelling
+    kw = dict(encoding=codecs_.spell(codec, len(repr(msg))), hex_bitmap=hexbm)
     if codec == 'latin_1' and len(msg) % 2:
         del kw['encoding']          # latin_1 is the documented default: rely on it for half of those cases
     if not hexbm and len(msg) % 3 == 0:
